@@ -160,3 +160,34 @@ Theorem C07_code_pipeline_JCD_partial :
   ltac:(let t := type of C07_code_pipeline_jcd_partial in exact t).
 Proof. exact C07_code_pipeline_jcd_partial. Qed.
 Print Assumptions C07_code_pipeline_JCD_partial.
+
+(* the residual shape hypothesis (R1) of C07_code_pipeline_JCD is derivable: the full statement, and the
+   same for the generated overlap_join (first stage Size/Prefix/Position with measure OVERLAP, or the
+   overlap filter with size S <= T) *)
+From SSJ Require Import CodeLevelRel7 CodeLevelRel8 CodeLevelRel9.
+Theorem C07_code_pipeline_JCD_full :
+  ltac:(let t := type of C07_code_pipeline_jcd_full in exact t).
+Proof. exact C07_code_pipeline_jcd_full. Qed.
+Print Assumptions C07_code_pipeline_JCD_full.
+Theorem C07_code_pipeline_OVERLAP :
+  ltac:(let t := type of C07_code_pipeline_overlap_join in exact t).
+Proof. exact C07_code_pipeline_overlap_join. Qed.
+Print Assumptions C07_code_pipeline_OVERLAP.
+Theorem C07_code_pipeline_OVERLAP_via_overlap_filter :
+  ltac:(let t := type of C07_code_pipeline_overlap_join_ovf in exact t).
+Proof. exact C07_code_pipeline_overlap_join_ovf. Qed.
+Print Assumptions C07_code_pipeline_OVERLAP_via_overlap_filter.
+
+(* ---- tie: WHICH function verifies a candidate, as read from utils/simfunctions.py on this run
+   (Gen/SimFunctionsGen.v): the py_stringmatching measures themselves (and the local set-intersection
+   count for OVERLAP) -- a locally re-implemented measure would appear as "local:<name>" *)
+From SSJ Require Import SimFunctionsGen.
+Theorem sim_functions_of_source_are_library_measures :
+  sim_function_table =
+  [("COSINE", "py_stringmatching.similarity_measure.cosine.Cosine.get_raw_score");
+   ("DICE", "py_stringmatching.similarity_measure.dice.Dice.get_raw_score");
+   ("EDIT_DISTANCE", "py_stringmatching.similarity_measure.levenshtein.Levenshtein.get_raw_score");
+   ("JACCARD", "py_stringmatching.similarity_measure.jaccard.Jaccard.get_raw_score");
+   ("OVERLAP", "local:overlap");
+   ("OVERLAP_COEFFICIENT", "py_stringmatching.similarity_measure.overlap_coefficient.OverlapCoefficient.get_raw_score")]%string.
+Proof. reflexivity. Qed.
